@@ -4,14 +4,15 @@ EXTENDS PathTrie
 
 T(segs, form) == [segs |-> segs, form |-> form]
 
-\* 10 templates: root, equal literals in two spellings, distinct literals, parameters with different names and spellings,
+\* 12 templates: root, equal literals in two spellings, distinct literals, parameters with different names and spellings,
 \* two-segment combinations of literal/parameter in both positions
 TplSmall == { T(<<>>, "plain"), T(<<"a">>, "plain"), T(<<"a">>, "nolead"), T(<<"b">>, "plain"),
               T(<<"{x}">>, "plain"), T(<<"{y}">>, "trail"),
-              T(<<"a", "b">>, "plain"), T(<<"a", "{x}">>, "plain"), T(<<"{x}", "b">>, "dbl"), T(<<"{y}", "{y}">>, "plain") }
+              T(<<"a", "b">>, "plain"), T(<<"a", "{x}">>, "plain"), T(<<"{x}", "b">>, "dbl"), T(<<"{y}", "{y}">>, "plain"),
+              T(<<"a">>, "dtrail"), T(<<"a", "b">>, "dmid") }
 
 Segs3 == {"a", "b", "{x}", "{y}"}
 \* every template of up to 3 segments over two literals and two parameters, in all four spellings
-TplAll == { T(s, f) : s \in UNION {[1..n -> Segs3] : n \in 0..3}, f \in {"plain", "nolead", "trail", "dbl"} }
+TplAll == { T(s, f) : s \in UNION {[1..n -> Segs3] : n \in 0..3}, f \in {"plain", "nolead", "trail", "dbl", "dtrail", "dmid"} }
 TplTwo == { T(s, f) : s \in UNION {[1..n -> Segs3] : n \in 0..2}, f \in {"plain", "trail"} }
 =============================================================================
